@@ -54,4 +54,20 @@ PROPS = {
         'assumptions': ['derive(PartialEq, Ord, Hash) act on the storage field only (PhantomData contributes nothing) - checked by '
                         'the recorded hasher input and cmp results on the generated cases'],
     },
+    'C16': {
+        'level_text': 'Coq theorems (Properties/C16.v) about a line-by-line model of from_acgt_bytes (AVX2 branch built on a '
+                      'transcription of the Intel pseudo-code of the intrinsics, and scalar branch), from_dna_string, '
+                      'from_dna_only_string, from_acgt_bytes_hashn and to_ascii_vec.',
+        'level_note': 'Trusted: the transcription of the AVX2 intrinsics (coq/Packed/Avx2Model.v) - validated only by running '
+                      'both paths on this CPU; DefaultHasher is a Section variable. No axioms.',
+        'technique': 'exhaustive vm_compute over the 65 536 byte pairs of a 16-bit lane lifted to all vectors, reflective '
+                     'symbolic bit-vector proof of the packing kernel, list induction; differential correspondence',
+        'rule': 'all 256 byte values at each of the 32 lanes of a vector block and in the scalar tail; random blocks; every length '
+                '0..130 in four content classes; both paths (AVX2 and, through hook H2, scalar); str constructors on ASCII and '
+                'non-ASCII text; hashed-N constructor: determinism, ACGT untouched, range, locality; non-trivial = the input has '
+                'a byte outside ACGT (lower case, invalid, non-ASCII) or is longer than one block',
+        'profiles': ['debug', 'release'],
+        'assumptions': ['Intel AVX2 intrinsic semantics are as transcribed in coq/Packed/Avx2Model.v',
+                        'std DefaultHasher is a fixed function of the bytes fed (Section variable H)'],
+    },
 }
